@@ -112,9 +112,40 @@ func newNode() node {
 	return node{P2P: p2p.New(priv, 1, nil, c, lib.NewNullLogger()), pub: priv.PublicKey().Bytes()}
 }
 
+// gated wraps a connection: while the gate is shut, writes block (a peer that stops reading: back-pressure)
+type gated struct {
+	net.Conn
+	mu   sync.Mutex
+	cond *sync.Cond
+	shut bool
+}
+
+func newGated(c net.Conn) *gated {
+	g := &gated{Conn: c}
+	g.cond = sync.NewCond(&g.mu)
+	return g
+}
+func (g *gated) Shut() { g.mu.Lock(); g.shut = true; g.mu.Unlock() }
+func (g *gated) Open() { g.mu.Lock(); g.shut = false; g.mu.Unlock(); g.cond.Broadcast() }
+func (g *gated) Write(b []byte) (int, error) {
+	g.mu.Lock()
+	for g.shut {
+		g.cond.Wait()
+	}
+	g.mu.Unlock()
+	return g.Conn.Write(b)
+}
+
 func pair() (a, b node, cleanup func()) {
+	a, b, _, cleanup = pairGated()
+	return
+}
+
+func pairGated() (a, b node, gate *gated, cleanup func()) {
 	a, b = newNode(), newNode()
-	c1, c2 := net.Pipe()
+	c1, raw := net.Pipe()
+	gate = newGated(raw)
+	var c2 net.Conn = gate
 	var wg sync.WaitGroup
 	wg.Add(1)
 	var e1 lib.ErrorI
@@ -127,7 +158,7 @@ func pair() (a, b node, cleanup func()) {
 	if e1 != nil || e2 != nil {
 		panic(fmt.Sprint("handshake: ", e1, e2))
 	}
-	return a, b, func() { a.Stop(); b.Stop() }
+	return a, b, gate, func() { gate.Open(); a.Stop(); b.Stop() }
 }
 
 type sentMsg struct {
@@ -259,10 +290,78 @@ func concCases(r *sim.Rng, n int, cw *sim.CaseWriter, direct string) {
 	}
 }
 
+// backpressureCases: the remote stops reading, the topic's send queue fills up to two free slots, a 5-packet message starts
+// queueing (and blocks half-way, holding the stream mutex), a 1-packet message is sent on the same topic, then the remote
+// reads again. Every delivered message must be one that was sent.
+func backpressureCases(r *sim.Rng, n int, cw *sim.CaseWriter) {
+	chunk := p2p.VerifMaxDataChunkSize
+	for i := 0; i < n; i++ {
+		a, b, gate, cleanup := pairGated()
+		conn := a.VerifConn(b.pub)
+		topic := lib.Topic_CONSENSUS
+		byKey := map[string]uint64{}
+		var ids []uint64
+		reg := func(bz []byte) {
+			id := uint64(len(byKey) + 1)
+			byKey[fmt.Sprintf("%d|%x", len(bz), sha256.Sum256(bz))] = id
+			ids = append(ids, id)
+		}
+		gate.Shut()
+		for k := 0; k < 999; k++ {
+			bz := []byte{byte(k), byte(k >> 8), 0xAB}
+			reg(bz)
+			if !conn.Send(topic, bz) {
+				panic("filler send failed")
+			}
+		}
+		big := make([]byte, 4*chunk+777+r.Intn(1000))
+		for j := range big {
+			big[j] = byte(j*7 + i)
+		}
+		small := []byte(fmt.Sprintf("small message %d", i))
+		var wg sync.WaitGroup
+		wg.Add(2)
+		reg(big)
+		go func() { defer wg.Done(); conn.Send(topic, big) }()
+		time.Sleep(150 * time.Millisecond)
+		idSmallSender := uint64(len(byKey) + 1)
+		byKey[fmt.Sprintf("%d|%x", len(small), sha256.Sum256(small))] = idSmallSender
+		go func() { defer wg.Done(); conn.Send(topic, small) }()
+		time.Sleep(150 * time.Millisecond)
+		gate.Open()
+		var delivered []uint64
+		invented := 0
+		deadline := time.Now().Add(20 * time.Second)
+		for len(delivered) < len(byKey) && time.Now().Before(deadline) {
+			select {
+			case m := <-b.Inbox(topic):
+				if id, ok := byKey[fmt.Sprintf("%d|%x", len(m.Message), sha256.Sum256(m.Message))]; ok {
+					delivered = append(delivered, id)
+				} else {
+					invented++
+					delivered = append(delivered, 1000000+uint64(invented))
+				}
+			case <-time.After(2 * time.Second):
+				deadline = time.Now()
+			}
+		}
+		wg.Wait()
+		cleanup()
+		cw.Add(fmt.Sprintf("mkCC [(%s, [%s; %s])] [(%s, %s)]", sim.CoqN(uint64(topic)), sim.CoqNList(ids), sim.CoqNList([]uint64{idSmallSender}), sim.CoqN(uint64(topic)), sim.CoqNList(delivered)),
+			map[string]any{"kind": "back-pressure", "sent": len(byKey), "delivered": len(delivered), "invented": invented})
+		st.Cases++
+		st.Distinct++
+		st.Kinds["back-pressure"]++
+		st.Sent += len(byKey)
+		st.Recv += len(delivered)
+	}
+}
+
 func main() {
 	nSplit := flag.Int("split", 60, "split cases")
 	nAsm := flag.Int("asm", 80, "assembler cases")
 	nConc := flag.Int("conc", 6, "concurrent connection-pair cases")
+	nBack := flag.Int("backpressure", 2, "back-pressure cases (a full send queue, a large and a small message on one topic)")
 	outDir := flag.String("outdir", ".", "output directory")
 	_ = flag.String("replay", "", "replay file (cases regenerate deterministically from the seed)")
 	flag.Parse()
@@ -276,6 +375,7 @@ func main() {
 	w2.Close(st)
 	w3 := &sim.CaseWriter{OutDir: *outDir, Name: "c18conc", Imports: imp, CaseType: "conc_case", MFun: "conc_mismatches", VFun: "conc_violations", PerShard: 50}
 	concCases(r.Fork(), *nConc, w3, *outDir)
+	backpressureCases(r.Fork(), *nBack, w3)
 	w3.Close(st)
 	fmt.Printf("c18: %d cases %v; concurrent: %d messages sent, %d delivered, %d bytes\n", st.Cases, st.Kinds, st.Sent, st.Recv, st.Bytes)
 }
